@@ -12,7 +12,9 @@ import (
 	"log"
 	"os"
 	"runtime/debug"
+	"syscall"
 	"testing"
+	"time"
 
 	"verif/opseq"
 	"verif/vk"
@@ -41,14 +43,20 @@ func TestCheck(t *testing.T) {
 		return
 	}
 	_ = n
+	timed := func(it *item, f func()) {
+		t0, c0 := time.Now(), cpuTime()
+		f()
+		sc := res.Scenario(it.sp.Name)
+		fmt.Printf("timing %-44s exec=%-7d wall=%6.2fs cpu=%6.2fs exhaustive=%v\n", it.sp.Name, sc.Executions, time.Since(t0).Seconds(), (cpuTime() - c0).Seconds(), sc.Exhaustive)
+	}
 	for _, it := range items {
 		if !it.whole {
-			opseq.Run(it.sp, res, vk.Deadline())
+			timed(it, func() { opseq.Run(it.sp, res, vk.Deadline()) })
 		}
 	}
 	for _, it := range items {
 		if it.whole && it.ownedBy == i {
-			runWhole(it.sp, res)
+			timed(it, func() { runWhole(it.sp, res) })
 		}
 	}
 	res.Write()
@@ -78,4 +86,10 @@ func replay(res *vk.Result, items []*item, rp map[string]any) {
 		}
 	}
 	res.EngineError("replay: unknown space %q", name)
+}
+
+func cpuTime() time.Duration {
+	var ru syscall.Rusage
+	syscall.Getrusage(syscall.RUSAGE_SELF, &ru)
+	return time.Duration(ru.Utime.Nano() + ru.Stime.Nano())
 }
